@@ -51,7 +51,7 @@ NAN, INF = float("nan"), float("inf")
 def bounds(tier):
     return {
         "quick": {"individuals": 2, "follow_depth": "1 read or 1 further proposal+decision", "models": "all catalogue kinds incl. the mixture model", "sampler_scripts": "u in {0, .5, 1-2^-24} per decision, <=1 extreme z"},
-        "thorough": {"individuals": "2 and 3", "follow_depth": "2 (two individuals, REF forking); 1 (COPY forking, three individuals)", "models": "all catalogue kinds incl. the mixture model", "sampler_scripts": "same + 2 deviations"},
+        "thorough": {"individuals": "2 and 3", "follow_depth": "2 (individual variables, two individuals, REF forking); 1 (population variables, COPY forking, three individuals)", "models": "all catalogue kinds incl. the mixture model", "sampler_scripts": "same + 2 deviations"},
     }[tier]
 
 
@@ -533,7 +533,9 @@ def run_shard(shard):
         # following history: quick 1; thorough 2 on the two-individual REF shards (one such shard is ~3e5 transitions, 7 CPU-minutes;
         # depth 3 did not finish in 40 CPU-minutes per shard once null proposals, COPY forking and integer masks had joined the
         # alphabet), 1 on the COPY and three-individual shards (which quick only runs on the first model / not at all)
-        deep = thorough and fm == "REF" and len(shard["ids"]) == 2
+        # (population-variable shards stay at depth 1 too: with depth 2 on all 107 two-individual REF shards the command was
+        # still running after 60 minutes on 12 workers; the individual-variable shards are the measured ones)
+        deep = thorough and fm == "REF" and len(shard["ids"]) == 2 and shard["variable"] in u.ind_vars
         explore_protocol(u, shard["variable"], acc, follow_depth=int(os.environ.get("LMC_C02_DEPTH", "2")) if deep else 1, quick=not thorough,
                          case_base=dict(base, driver="protocol", **({"fork_mode": fm} if fm != "REF" else {})), fork_mode=fm)
     elif shard["driver"] == "dtype":
